@@ -48,8 +48,8 @@ Theorem C12_alias_anything_single : forall g imp f,
 Proof. exact (alias_anything_single ceqb ceqb_spec rmatch). Qed.
 
 Theorem C12_alias_anything : forall g imp Ss,
-  assert_applies ceqb rmatch g (any_cfg imp Ss) =
-  assert_applies ceqb rmatch g (mk ShouldNot imp true (drop_children ceqb Ss) (drop_children ceqb Ss)).
+  verdict ceqb rmatch g (any_cfg imp Ss) =
+  verdict ceqb rmatch g (mk ShouldNot imp true (drop_children ceqb Ss) (drop_children ceqb Ss)).
 Proof. exact (alias_anything ceqb rmatch). Qed.
 
 (* adding an import never breaks a passing 'should' rule (with or without 'except') ... *)
